@@ -1,6 +1,7 @@
 package connect
 
 import (
+	"context"
 	"errors"
 	"io"
 	"net/http"
@@ -204,4 +205,80 @@ func HarnessC01PoolSeedBoundary() {
 		check(bytesEq(*stream.Msg(), msgs[i]), "the i-th message received equals the i-th message sent")
 	}
 	check(!stream.Receive() && stream.Err() == nil, "the stream ends cleanly after the last message")
+}
+
+// HarnessC01BidiFullStack: the whole stack in both directions at once: a
+// real client's bidirectional stream over the full-duplex transport model
+// (duplex.go) to a real handler that answers every message with a copy.
+// Symbolic message count and contents (empty messages anywhere), optional
+// compression in both directions with a symbolic compress-min-bytes.  The
+// handler must see exactly the sequence sent, the client exactly the
+// sequence of copies, each followed by a clean end.
+//
+//verif:harness property=C01 stubs=json,wire shard=proto:3
+func HarnessC01BidiFullStack() {
+	proto := nondetChoice("proto", 3)
+	msgs := c01Messages()
+	compress := nondetBool("compress")
+	minBytes := 1 << 20
+	if compress {
+		minBytes = nondetInt("minBytes")
+		assume(minBytes >= 0 && minBytes <= 2)
+	}
+	var seen [][]byte
+	handlerEnd := false
+	handler := NewBidiStreamHandler("/pkg.Svc/Method", func(_ context.Context, s *BidiStream[[]byte, []byte]) error {
+		for {
+			m, err := s.Receive()
+			if err != nil {
+				if errors.Is(err, io.EOF) {
+					handlerEnd = true
+					return nil
+				}
+				return err
+			}
+			seen = append(seen, append([]byte{}, *m...))
+			out := append([]byte{}, *m...)
+			if err := s.Send(&out); err != nil {
+				return err
+			}
+		}
+	}, WithCodec(&stackCodec{}), WithCompressMinBytes(minBytes), c08XorHandler("gzip"))
+	copts := []ClientOption{WithCodec(&stackCodec{}), WithCompressMinBytes(minBytes), c08XorClient("gzip")}
+	if compress {
+		copts = append(copts, WithSendCompression("gzip"))
+	}
+	switch proto {
+	case 1:
+		copts = append(copts, WithGRPC())
+	case 2:
+		copts = append(copts, WithGRPCWeb())
+	}
+	client := NewClient[[]byte, []byte](&duplexTransport{handler: handler}, stackURL, copts...)
+	stream := client.CallBidiStream(context.Background())
+	var got [][]byte
+	for _, m := range msgs {
+		in := append([]byte{}, m...)
+		check(stream.Send(&in) == nil, "sending succeeds")
+		r, err := stream.Receive()
+		check(err == nil, "the copy of each message arrives")
+		if err != nil {
+			return
+		}
+		got = append(got, append([]byte{}, *r...))
+	}
+	check(stream.CloseRequest() == nil, "closing the request side succeeds")
+	_, err := stream.Receive()
+	check(errors.Is(err, io.EOF), "the response stream ends cleanly after the last copy")
+	check(handlerEnd, "the handler saw a clean end of the request stream")
+	check(len(seen) == len(msgs) && len(got) == len(msgs), "same count in both directions")
+	for i := range msgs {
+		if i < len(seen) {
+			check(bytesEq(seen[i], msgs[i]), "the handler receives each message intact and in order")
+		}
+		if i < len(got) {
+			check(bytesEq(got[i], msgs[i]), "the client receives each copy intact and in order")
+		}
+	}
+	_ = stream.CloseResponse()
 }
